@@ -175,8 +175,32 @@ def forms_of(fn):
                     if st.get("k") in ("Let", "Local") and isinstance(st.get("pat"), dict) and st["pat"].get("k") == "Bind" and st["pat"].get("name") == sc.get("name") and st.get("init"):
                         sc = peel(st["init"])
                         break
-            if sc.get("k") == "MethodCall" and sc.get("name") == "len" and "label" in repr(field_chain(sc["recv"])).lower():
-                ms.append(n)
+            if sc.get("k") == "MethodCall" and sc.get("name") == "len":
+                recv = peel(sc["recv"])
+                if recv.get("k") == "Path" and recv.get("res") == "local":
+                    # `let mine = &self.labels; match mine.len() {..}`: look through the alias
+                    nm_ = recv.get("name")
+                    for st in dwalk(fn.hir):
+                        if st.get("k") not in ("Let", "Local") or not isinstance(st.get("pat"), dict) or not st.get("init"):
+                            continue
+                        init = None
+                        if st["pat"].get("k") == "Bind" and st["pat"].get("name") == nm_:
+                            init = peel(st["init"])
+                        elif st["pat"].get("k") in ("Tuple", "Tup"):
+                            # `let (mine, his) = (&self.labels, &other.labels);`
+                            pats = st["pat"].get("pats") or st["pat"].get("elems") or st["pat"].get("fields") or []
+                            ini = peel(st["init"])
+                            elems = ini.get("elems") or ini.get("es") or ini.get("fields") or []
+                            for pi, pp in enumerate(pats):
+                                if isinstance(pp, dict) and pp.get("k") == "Bind" and pp.get("name") == nm_ and pi < len(elems):
+                                    init = peel(elems[pi])
+                        if init is not None:
+                            recv = init
+                            while recv.get("k") in ("AddrOf", "Unary") and isinstance(recv.get("e") or recv.get("a"), dict):
+                                recv = peel(recv.get("e") or recv.get("a"))
+                            break
+                if "label" in repr(field_chain(recv)).lower():
+                    ms.append(n)
     if len(ms) != 1:
         return None, f"expected one `match labels.len()`, found {len(ms)}"
     out = {}
